@@ -84,6 +84,20 @@ PROPS = {
     },
 }
 
+PROPS['C17'] = {
+    'units': [{'template': 'chain.rs', 'rlimit': 30, 'items': [
+        r'^crypto::(ed25519|p256)::(PublicKey|PrivateKey|KeyPair)::', r'^crypto::PublicKey::(from_bytes|from_proto|to_proto|to_bytes|algorithm|verify_signature)$',
+        r'^crypto::PrivateKey::(from_bytes|to_bytes|public|algorithm)$', r'^crypto::KeyPair::(from_bytes|from|private|public|algorithm|sign)$',
+        r'^crypto::Signature::']}],
+    'proved': 'wrong-length private keys / key pairs are refused with InvalidKeySize before the conversion that would panic (p256: generic-array '
+              'precondition; ed25519: try_into); ed25519 signatures of length != 64 are refused; the algorithm tag <-> variant table of '
+              'from_bytes / from_proto / to_proto / algorithm; to_proto writes exactly (tag, canonical key bytes) and from_proto accepts only '
+              'encodings that decode to the returned key; public() of a private key and of the key pair built from it agree.',
+    'not_covered': ['decode(encode(k)) = k of the primitives, PEM/DER, hex: assumptions on the dependencies',
+                    'FromStr / string-prefix parsing (str reasoning is outside Verus)', 'a signature verifies only under the matching key (cryptographic assumption)'],
+    'assumptions': CRYPTO_ASSUMPTIONS,
+}
+
 NOT_APPLICABLE = {
     'C03': 'check not built yet in this revision (planned: TrustedOrigins::from_scopes against the specification set, DESIGN.md 5/C03)',
     'C04': 'check not built yet in this revision (planned: scope computation and query scoping, DESIGN.md 5/C04)',
@@ -96,7 +110,6 @@ NOT_APPLICABLE = {
     'C13': 'snapshot()/from_snapshot() are chains of iter().map(closure).collect::<Result<..>>() over prost messages with symbol re-interning: outside Verus subset, Kani out of budget (DESIGN.md 5/C13)',
     'C14': 'printing is fmt::Display/format! (macro-generated), parsing is nom combinators (closures returning closures): there is no function on either side to which a contract can be attached (DESIGN.md 5/C14)',
     'C16': 'check not built yet in this revision (planned: SchemaVersion / block_signature_version, DESIGN.md 5/C16)',
-    'C17': 'check not built yet in this revision (planned: key length guards and algorithm dispatch, DESIGN.md 5/C17)',
     'C18': 'the macro path is ToTokens implementations emitting token streams inside a proc-macro crate: code behind macros, executed by the compiler; no contract can state what Rust expression a token stream denotes (DESIGN.md 5/C18)',
     'C19': 'check not built yet in this revision (planned: Kani on the C API size/buffer obligations, DESIGN.md 5/C19)',
     'C20': 'substitution/validation are drain().map(closure).collect() over HashMap<String,_>/BTree collections: structural induction over code neither back end accepts (DESIGN.md 5/C20)',
